@@ -300,6 +300,10 @@ func (e *Ev) evGhostCall(x *ast.CallExpr) Val {
 			return VBool{sEq(a.T, "0")}
 		case VRef:
 			return VBool{sEq(a.T, "0")}
+		case VMapRef:
+			return VBool{sEq(a.T, "0")}
+		case VInt:
+			return VBool{sEq(a.T, "0")}
 		case VNil:
 			return VBool{"true"}
 		}
